@@ -83,7 +83,7 @@ CLAIMED = {
         ref='DESIGN.md section 4 C18'),
     "C13": dict(
         technique="Coq proof over an executable model of walk_tree/_traverse_tree/printer + model/implementation correspondence",
-        text=("coq/props/C13.v (13 theorems): TOTALITY ON DUMPS (first clause) as a theorem on the C05 fragment: for every value in c05_guard (containers, dict family, slices, names, arrays, sparse, dtype, masked, RNGs, partial; arbitrary sharing), every load environment of that archive and EVERY trusted list, the row generator, show=all and show=untrusted complete, show=untrusted prints exactly the rows that are not fully safe, and show=trusted completes when every row below the root is self-safe (C13_total_on_dumps_partial; proof: the tree built from a dumped state is ranked -- every object above its parts -- hence acyclic with bounded reference depth, every reference resolves, the audit of every node completes independently of fuel and call stack, the walk yields a safe-closed pre-order forest, which _traverse_tree accepts whenever the hidden rows are exactly the fully safe ones); for show=trusted it is refuted with a computed witness ([functools.partial(np.add, 1)]: finding D24). AGREEMENT WITH THE AUDIT: whenever visualize completes (any archive, any trusted list, any show mode) what reaches the printer is the root row followed by rows each at most one level "
+        text=("coq/props/C13.v (13 theorems): TOTALITY ON DUMPS (first clause) as a theorem on the C05 fragment: for every value in c05_guard (containers, dict family, slices, names, arrays, sparse, dtype, masked, RNGs, partial, bytes / bytearray, rank-1 object arrays; arbitrary sharing), every load environment of that archive and EVERY trusted list, the row generator, show=all and show=untrusted complete, show=untrusted prints exactly the rows that are not fully safe, and show=trusted completes when every row below the root is self-safe (C13_total_on_dumps_partial; proof: the tree built from a dumped state is ranked -- every object above its parts -- hence acyclic with bounded reference depth, every reference resolves, the audit of every node completes independently of fuel and call stack, the walk yields a safe-closed pre-order forest, which _traverse_tree accepts whenever the hidden rows are exactly the fully safe ones); for show=trusted it is refuted with a computed witness ([functools.partial(np.add, 1)]: finding D24). AGREEMENT WITH THE AUDIT: whenever visualize completes (any archive, any trusted list, any show mode) what reaches the printer is the root row followed by rows each at most one level "
               "deeper than the previous one, and only rows the filter admits; every row carries the audit's own verdicts for its node (is_self_safe, and fully-safe iff the graph audit "
               "below it reports nothing); the root row is fully safe iff get_untrusted_types is empty for that trust setting; a row is tagged [UNSAFE] iff its own type is untrusted; "
               "a generic node that is not self-safe is never fully safe. The model (lazy row stream, key_types special case, SKIPPED kinds from the snapshot, Ref/cycle unrolling, the plain-text printer) "
@@ -137,8 +137,8 @@ CLAIMED = {
         note=("Trusted: harness/pval_emit.py (object -> pval term), absval/canon, numpy/scipy/json float codecs as opaque tokens, zipfile. D07 (bool keys), D25 (defaultdict keys) C04-F2 (defaultdict subclasses), C04-F3 (tuple subclasses) and C04-F5 (bytes / bytearray subclasses, numpy.bytes_) repaired in /repo."),
         ref="DESIGN.md section 4 C04"),
     "C05": dict(
-        technique='Coq round-trip theorem at the real entry points (containers, dict family, arrays, sparse, dtype, masked, RNGs, partial; arbitrary sharing) + per-case vm_compute of the model round trip + implementation cycles',
-        text=("coq/props/C05.v: C05_roundtrip_partial -- for every value in the fragment `c05_guard` (JSON scalars surviving the text codec; nested list/tuple/set; dict / OrderedDict / defaultdict with str/int/float/numpy-number keys without JSON-spelling collisions, including the key_types lists; slices; function and type names; attrgetter/itemgetter; numpy arrays and numpy scalars (opaque token in an <id>.npy member), scipy sparse matrices (<id>.npz), dtypes, masked arrays, RandomState, Generator, functools.partial) with ANY sharing of sub-objects (a DAG; premise: one label denotes one object; a shared array is written once and referenced from every occurrence), roundtrip = loads_model (dumps_model v) = Ok v, i.e. the same value with the same identity labels and sharing; proved through the memo first-occurrence invariant for trees get_tree builds from states get_state emits, at the root entry points incl. the protocol/_skops_version fields; C05_stable_partial for k cycles; totality of dumps on the fragment. Still outside the theorem (correspondence-only): bytes/bytearray (uuid-named members), object arrays, scipy sparse arrays. Full grammar: per generated value `supported v` and 'model loads(dumps(v)) has the abstraction of v' are evaluated by vm_compute, and the model's schema/value are compared with /repo; k-fold dump/load cycles and RNG stream continuation run on the implementation."),
+        technique='Coq round-trip theorem at the real entry points (containers, dict family, arrays, sparse, dtype, masked, RNGs, partial, bytes/bytearray, rank-1 object arrays; arbitrary sharing) + per-case vm_compute of the model round trip + implementation cycles',
+        text=("coq/props/C05.v: C05_roundtrip_partial -- for every value in the fragment `c05_guard` (JSON scalars surviving the text codec; nested list/tuple/set; dict / OrderedDict / defaultdict with str/int/float/numpy-number keys without JSON-spelling collisions, including the key_types lists; slices; function and type names; attrgetter/itemgetter; numpy arrays and numpy scalars (opaque token in an <id>.npy member), scipy sparse matrices (<id>.npz), dtypes, masked arrays, RandomState, Generator, functools.partial, bytes / bytearray and their subclasses (uuid-named members: a shared bytes object is written once per occurrence and still loads as ONE object), rank-1 object arrays of any length with cells in the fragment) with ANY sharing of sub-objects (a DAG; premise: one label denotes one object; a shared array is written once and referenced from every occurrence), roundtrip = loads_model (dumps_model v) = Ok v, i.e. the same value with the same identity labels and sharing; proved through the memo first-occurrence invariant for trees get_tree builds from states get_state emits, at the root entry points incl. the protocol/_skops_version fields; C05_stable_partial for k cycles; totality of dumps on the fragment. Still outside the theorem (correspondence-only): object arrays of rank 0 and rank >= 2 (rank >= 2 with sequence cells is finding D10), scipy sparse arrays (object path), user-class instances. Full grammar: per generated value `supported v` and 'model loads(dumps(v)) has the abstraction of v' are evaluated by vm_compute, and the model's schema/value are compared with /repo; k-fold dump/load cycles and RNG stream continuation run on the implementation."),
         note=('Trusted: harness/pval_emit.py (object -> pval term), absval/canon (self-tested each run); floats identified with their repr text; numpy/scipy codecs opaque tokens.'),
         ref="DESIGN.md section 4 C05 / section 10"),
     "C06": dict(
